@@ -222,6 +222,11 @@ def analyse_iterator_discipline(prog, F, W, fn):
     if cfg is None or fn.body is None:
         return
     outs = [v for v in set(d.decl_id for d in fn.walk() if d.k == 'DeclRefExpr' and d.decl_id is not None) if W.W.get(v) == ('out', 'CALLER')]
+    iterator_discipline_for(prog, F, fn, outs)
+
+
+def iterator_discipline_for(prog, F, fn, outs):
+    cfg = fn.cfg
     for ov in outs:
         uses = [d for d in fn.walk() if d.k == 'DeclRefExpr' and d.decl_id == ov]
         consuming = []
@@ -263,6 +268,8 @@ def analyse_iterator_discipline(prog, F, W, fn):
                 F.add('R05f', call, fn, what, 'ok', 'result assigned back to the iterator')
                 continue
             later = [d for d in uses if d is not u and cfg.reaches(call, d) and not call.is_ancestor_of(d)]
+            if not later and call.enclosing('ForStmt', 'WhileStmt', 'DoStmt', 'CXXForRangeStmt') is not None:
+                later = [u]       # the same call in the next iteration of the enclosing loop starts from the stale iterator again
             if later:
                 F.add('R05f', call, fn, what, 'violation',
                       '`%s` receives a copy of the iterator and its advanced result is dropped; the stale iterator is used again at line %d: with a '
